@@ -318,7 +318,11 @@ func (smf *SMFailed) UnmarshalXML(d *xml.Decoder, start xml.StartElement) error 
 				err = d.DecodeElement(&xnwf, &tt)
 				smf.StreamErrorGroup = &xnwf
 			default:
-				return errors.New("error is unknown")
+				// XEP-0198 servers put stanza error conditions such as item-not-found or
+				// feature-not-implemented here: keep any other condition by name.
+				oc := OtherCondition{}
+				err = d.DecodeElement(&oc, &tt)
+				smf.StreamErrorGroup = &oc
 			}
 			if err != nil {
 				return err
